@@ -158,9 +158,11 @@ def run(ctx):
     # G6: every box shape of BoxLayouts.tla (all versions / flag subsets / counts / boundary values), plus their truncations in the thorough tier
     ri = ctx.tlc_ok("BoxLayouts", "BoxLayouts_quick.cfg", workers=14, timeout=3000, heap="12g", stack="64m")
     g6 = 0
-    for e in sorted(ri.exported, key=lambda e: (e["layout"], e["ver"], e["flags"], e["cnt"], str(e["pick"]), e["hdr"], e["wrap"])):
+    for e in sorted(ri.exported, key=lambda e: (e["layout"], e["ver"], e["flags"], e["cnt"], str(e["pick"]), e["hdr"], e["wrap"], str(e.get("ord")))):
         b = bytes(e["bytes"])
         iid = "G6/%s/v%d/f%x/c%d/%s-%s/%s/%s" % (e["layout"], e["ver"], e["flags"], e["cnt"], e["pick"][0], e["pick"][1], e["hdr"], e["wrap"])
+        if e.get("ord"):
+            iid += "=" + "+".join(e["ord"])
         items.append((iid, "file", b))
         g6 += 1
         # G2/G3 on every box shape: size / largesize / count corruption of the instance's own header (and of its parent when nested)
